@@ -10,15 +10,16 @@ META = {
     'design_ref': 'DESIGN.md §5 C13',
     'text': 'Kernel-checked, unbounded: (npm) for documents with unique keys and well-formed updates a successful Write yields exactly '
             'substitute(requirements, updates) on re-Read, keeps keys/order and every unaddressed entry, is the identity on no updates, and never '
-            'succeeds silently on a key that is present; the escaped path component is parsed back by gjson as the literal key; on the span model of the file the output is the input with '
+            'succeeds silently on a key that is present; Read loses no entry of the three sections (a requirement is keyed by package and alias: C13_npm_read_complete, for every document); the escaped path component is parsed back by gjson as the literal key; on the span model of the file the output is the input with '
             'exactly the addressed value spans replaced (every other byte in place), and the bytes are unchanged with no updates. '
             '(pom) generatePropertyPatches never slices out of range for any two strings, and every returned patch map interpolates the old '
             'requirement to exactly the new one and gives no name two values (full strength after fix d4dd80ce). '
-            'The abstract pom writer has Write\'s error outcome (malformed Name), is the identity on no updates, and on the literal fragment (all versions literal, unique keys, any number of updates on different keys) '
+            'The abstract pom writer has Write\'s error outcome (malformed Name), is the identity on no updates, and on the literal fragment (all versions literal, keys without placeholders, unique keys, any number of updates on different keys) '
             'succeeds, re-reads as substituted and applies every update (no silent success). Beyond that fragment the pom.xml writer is covered by correspondence plus the '
-            'requirement-level oracle (re-read = substitute), not by a general theorem; four classes where the unchanged writer leaves the '
-            'property are recorded as known findings with witnesses (comment inside <version>, dependencies-vs-dependencyManagement addressing, shared property, a property defined only in another profile); three '
-            'former ones (white space in key elements, undefined property, repeated placeholder) were repaired and their witnesses are regression cases. Token level: writeString (the rewrite applied to every dependency / parent / properties element) is modelled on token '
+            'requirement-level oracle (re-read = substitute), not by a general theorem; five classes where the unchanged writer leaves the '
+            'property are recorded as known findings with witnesses (comment inside <version>, dependencies-vs-dependencyManagement addressing, shared property, a property defined only in another profile, '
+            'a property of the pom inside a dependency\'s coordinates); keys written through the project\'s own coordinates (${project.groupId}) are resolved since the ResolvedKey fix (modelled: coordDict / interpKey; decided witness); three '
+            'former ones (white space in key elements, undefined property, repeated placeholder) were repaired and their witnesses are regression cases, as is the dependencyManagement element without <dependencies> (entries for keys the pom does not hold were dropped). Token level: writeString (the rewrite applied to every dependency / parent / properties element) is modelled on token '
             'lists and is the identity whenever each addressed child holds exactly its value (comment-in-<version> counterexample proved); the element dispatch above it '
             '(write / writeProject / writeDependency) and the XML tokenizer/encoder (forkedxml) are not modelled.',
     'note': 'Trusted: Lean kernel (axioms propext/Quot.sound/Classical.choice at most); gjson/sjson address exactly the parsed literal key and change only '
@@ -28,12 +29,13 @@ META = {
 NPM = 'Scalibr.Npm.'
 POM = 'Scalibr.Pom.'
 THEOREMS = [NPM + 'C13_npm_escape', NPM + 'C13_npm_roundtrip_partial', NPM + 'C13_npm_identity', NPM + 'C13_npm_no_silent_success',
-            NPM + 'C13_npm_present_applied', NPM + 'C13_npm_alias_at_witness', NPM + 'C13_npm_absent_key_witness',
+            NPM + 'C13_npm_present_applied', NPM + 'C13_npm_alias_at_witness', NPM + 'C13_npm_alias_separate_fixed_witness', NPM + 'C13_npm_read_complete', NPM + 'C13_npm_read_complete_old_witness', NPM + 'C13_npm_absent_key_witness',
             NPM + 'C13_npm_bytes_partial', NPM + 'C13_npm_bytes_untouched_partial', NPM + 'C13_npm_bytes_identity',
             POM + 'C13_pom_props_total', POM + 'C13_pom_props_fuel_adequate', POM + 'C13_pom_props_sound', POM + 'C13_pom_props_repeated_name_fixed',
             POM + 'C13_pom_props_fixed_witnesses', POM + 'C13_pom_identity', POM + 'C13_pom_invalid_name_error',
             POM + 'C13_pom_literal_roundtrip_partial', POM + 'C13_pom_no_silent_success_partial',
             POM + 'C13_pom_class_witnesses', POM + 'C13_pom_ignores_version_from_witness', POM + 'C13_pom_other_profile_witness', POM + 'C13_pom_fixed_witnesses',
+            POM + 'C13_pom_project_key_fixed_witness', POM + 'C13_pom_key_property_witness',
             'Scalibr.PomTok.C13_pom_tokens_identity_partial', 'Scalibr.PomTok.C13_pom_tokens_fuel_adequate', 'Scalibr.PomTok.C13_pom_tokens_comment_witness']
 
 
@@ -61,17 +63,19 @@ def run(ctx):
                    'gjson.GetBytes / sjson.SetBytes address the literal key the path component parses to and rewrite only that value (output bytes are compared with a re-rendering on every case)',
                    'encoding/json (Read), forkedxml, deps.dev maven.Project decoding and interpolation: exercised by the streams, not modelled',
                    'harness/cmd/c13gen + lean/Drivers/C13.lean line protocol', 'Lean compiler for the driver executable']
-    ctx.assumptions = ['package.json sections have unique keys and, per section, distinct real package names (Go map order would otherwise decide)',
+    ctx.assumptions = ['package.json sections have unique keys',
                        'updates carry plain version strings (no ":", "/", "@"); an aliased update names its package and a non-empty old version',
                        'pom model: no local parents, plugins, imports, active profiles; property values are literals; one update per dependency key']
-    ctx.rule = ('npm case = three sections (0-4 entries, 26 names incl. dotted/scoped/wildcard/escaped/non-ASCII, plain/alias/non-registry values, repeated keys across sections; every fourth manifest requires one package through its own name and 1-2 npm: aliases in "dependencies", at identical or different ranges, each entry updated) in a '
+    ctx.rule = ('npm case = three sections (0-4 entries, 26 names incl. dotted/scoped/wildcard/escaped/non-ASCII, plain/alias/non-registry values, repeated keys across sections; every fourth manifest requires one package through its own name and 1-2 npm: aliases, at identical or different ranges, all in "dependencies" or spread over the three sections (Read keys a requirement by package and alias), each entry updated) in a '
                 'random layout (indent, key order, noise sections) x a subset of the requirements Read reports as updates (some with a wrong old version or an ill-formed new one); '
                 'thorough adds every section combination x equal/different versions x 8 names, plain and aliased. '
                 'pp case = (s1, s2) from literal/placeholder pools; thorough adds 155 templates x every s2 of length <=5 over {1 . - x}. '
                 'ws case = one dependency / parent / properties element (comments, CDATA, entities, attributes, white space, PIs inside or beside the addressed child) through the real writeString with the element\'s own version, a new one, or property values. '
-                'pch case = multi-module layout with 1-3 local parents, intermediate poms that inherit groupId / version, default and explicit relativePath, literal-version entries at every level, updates addressed to each, written to the same path or to another directory (parents must appear next to the output); '
-                'pom case = abstract pom (1-4 dependencies, every third with a second declaration of one groupId:artifactId under another key (test-jar / classifier) and another version, dependencyManagement, 0-2 profiles, properties used as whole/prefix/suffix/two placeholders, ${project.version}) rendered with '
-                'comments / one-line forms / namespaces, x update subsets drawn from the real Read (all subsets when <=4 in thorough) + the no-update case (plain, comment or CDATA in <version>). '
+                'pch case = multi-module layout with 1-3 local parents, intermediate poms that inherit groupId / version, default and explicit relativePath, literal-version entries at every level (every third layout with ${project.groupId} / ${pom.groupId} group ids, the child having its own group id or the chain\'s), updates addressed to each, written to the same path or to another directory (parents must appear next to the output); '
+                'pom case = abstract pom (1-4 dependencies, every third with a second declaration of one groupId:artifactId under another key (test-jar / classifier) and another version, dependencyManagement, 0-2 profiles, properties used as whole/prefix/suffix/two placeholders, ${project.version}; every sixth with group / artifact ids written through ${project.groupId} / ${pom.groupId} / ${project.version}, every twentieth through a property of the pom) rendered with '
+                'comments / one-line forms / namespaces, x update subsets drawn from the real Read (all subsets when <=4 in thorough) + the no-update case (plain, comment or CDATA in <version>); '
+                'every fourth pom without managed entries still has the element: <dependencyManagement/>, <dependencyManagement></dependencyManagement>, white space or a comment inside, or an empty / self-closing <dependencies> inside, and is then also written with updates for keys it does not hold (they must be added there); '
+                'a self-closing <dependencyManagement/> comes back as <dependencyManagement></dependencyManagement> (same tokens; the writer re-wraps the inner XML) and bytes are compared with that spelling. '
                 'non-trivial = at least one update (npm, pom) or s1 with a placeholder and a non-"no" answer (pp); distinct = distinct case lines')
     ok, _ = ctx.lean_build(['Scalibr.Properties.C13', 'drv_c13'])
     proofs_ok = ctx.audit(['Scalibr.Properties.C13'], THEOREMS)
@@ -101,6 +105,8 @@ def run(ctx):
         if op == 'npm':
             if r in ('err-but-wrote', 'ok-nofile', 'ok-badjson', 'ok-rereaderr'):
                 return 'package.json Write: ' + r
+            if fm.get('rc') == '0' and fm.get('wf') == '1':
+                return 'package.json Read: an entry of the file is not among the requirements (an npm: alias and the plain entry of its package are two requirements)'
             if r == 'ok' and fm.get('wf') == '1':
                 if fi.get('reqs') != fm.get('spec'):
                     return 'package.json: re-read requirements differ from substitute(original, updates)'
@@ -135,13 +141,18 @@ def run(ctx):
         else:
             if r in ('ok-nofile', 'ok-rereaderr', 'err-but-wrote'):
                 return 'pom.xml Write: ' + r
+            if r == 'ok' and fm.get('added', '-') not in ('-', ''):
+                got = fi.get('reqs', '').split(',')
+                if any(a not in got for a in fm['added'].split(',')):
+                    return ('pom.xml: Write returned nil, but an update for a key the pom does not hold was not added to '
+                            'dependencyManagement (success without applying the update)')
             if r == 'ok' and fm.get('scope') == '1':
                 if fi.get('reqs') != fm.get('spec'):
                     return 'pom.xml: re-read requirements differ from substitute(original, updates)'
                 if case.split(' ')[4] == '-':
                     if fi.get('tok') != '1':
                         return 'pom.xml: no updates, but the token sequence (elements, attributes, text, comments) changed'
-                    if op == 'pom' and fi.get('id') != '1':
+                    if op in ('pom', 'pome', 'pomf') and fi.get('id') != '1':
                         return 'pom.xml: no updates and nothing special inside <version>, but the bytes written differ from the bytes read'
                 elif fi.get('rest') != '1':
                     return 'pom.xml: bytes outside <version> / property values changed'
